@@ -101,6 +101,14 @@ def run(corrupt=None):
                 cfgs.append(dict(base, n=3, kernel="full", wiring="lib", outl=outl, np=1, thr=1.0))
         c01.run_configs(ck, cfgs, table, which=which, prop="C07", structural_only=True,
                         sigfn=lambda cfg, which=which: "sampler=%s|outl=%d" % (which, cfg["outl"]))
+    # --- swarms of real conditional-SMC passes: lineage / retained-path / data-conservation invariants of PGibbsSM
+    from .. import pgtrace
+    total, unmatched, violated = pgtrace.mechanism_check(ck, "C07", thorough, seed)
+    for v in violated:
+        ck.violation("C07|smc_invariant|%s" % v, "a recorded conditional-SMC swarm violates %s (retained path / lineages / data conservation)" % v, {"invariant": v})
+    for tr in unmatched[:3]:
+        ck.model_drift("recorded conditional-SMC swarms are not a behaviour of PGibbsSM (start %s)" % json.dumps(tr["s0"]))
+    ck.extra["swarm_traces_recorded"] = total
     # --- seeded end-to-end chains
     chains(ck, seed, thorough)
     ck.rule = ("(a) all realised edges of the TreeADT closure on 3 points + in-place walks on 4 points, (b) every output tree of every "
